@@ -12,6 +12,7 @@ import (
 	"strconv"
 	"strings"
 	"sync"
+	"time"
 	"unsafe"
 )
 
@@ -360,13 +361,114 @@ func SetField(obj any, field string, v any) {
 	p.Set(reflect.ValueOf(v).Convert(f.Type()))
 }
 
+// NumFields is the number of fields of the struct *obj (harnesses that build
+// representation states directly use it to notice a changed representation).
+func NumFields(obj any) int { return reflect.ValueOf(obj).Elem().NumField() }
+
 // GetField reads a (possibly unexported) field of *obj.
 func GetField(obj any, field string) any {
 	f := reflect.ValueOf(obj).Elem().FieldByName(field)
 	return reflect.NewAt(f.Type(), unsafe.Pointer(f.UnsafeAddr())).Elem().Interface()
 }
 
-func Freeze(obj any)      {}
-func Unfreeze()           {}
+// Stub replaces a library/std function (by its full name) with harness code in
+// the symbolic run; natively the real function runs.
+func Stub(name string, fn any) {}
+
+var epoch = time.Date(2000, 1, 1, 0, 0, 0, 0, time.UTC)
+
+// Day is the whole-day UTC date number n (days since 2000-01-01).
+func Day(n int) time.Time { return epoch.AddDate(0, 0, n) }
+
+// DayOf is the inverse of Day.
+func DayOf(t time.Time) int { return int(math.Round(t.Sub(epoch).Hours() / 24)) }
+
+var tempDirs []string
+
+// TempDir is a fresh directory natively (a fixed name in the symbolic run, where
+// the file system is stubbed).
+func TempDir() string {
+	d, err := os.MkdirTemp("", "vrt")
+	if err != nil {
+		panic(err)
+	}
+	tempDirs = append(tempDirs, d)
+	return d
+}
+
+// Cleanup removes the directories made by TempDir.
+func Cleanup() {
+	for _, d := range tempDirs {
+		os.RemoveAll(d)
+	}
+	tempDirs = nil
+}
+
+// Freeze / Unfreeze: natively the reachable scalar state of obj is dumped before
+// and after; a difference is the failure "instance-write" (the executor instead
+// flags the store itself).
+var frozenObj any
+var frozenDump string
+
+func dump(v reflect.Value, depth int, seen map[uintptr]bool, sb *strings.Builder) {
+	if depth > 8 || !v.IsValid() {
+		return
+	}
+	switch v.Kind() {
+	case reflect.Ptr, reflect.Interface:
+		if v.IsNil() {
+			sb.WriteString("nil;")
+			return
+		}
+		if v.Kind() == reflect.Ptr {
+			if seen[v.Pointer()] {
+				return
+			}
+			seen[v.Pointer()] = true
+		}
+		dump(v.Elem(), depth+1, seen, sb)
+	case reflect.Struct:
+		for i := 0; i < v.NumField(); i++ {
+			sb.WriteString(v.Type().Field(i).Name + ":")
+			dump(v.Field(i), depth+1, seen, sb)
+		}
+	case reflect.Slice, reflect.Array:
+		fmt.Fprintf(sb, "[%d]", v.Len())
+		for i := 0; i < v.Len(); i++ {
+			dump(v.Index(i), depth+1, seen, sb)
+		}
+	case reflect.Map:
+		fmt.Fprintf(sb, "map[%d];", v.Len())
+	case reflect.Chan, reflect.Func, reflect.UnsafePointer:
+		sb.WriteString("-;")
+	case reflect.Bool:
+		fmt.Fprintf(sb, "%v;", v.Bool())
+	case reflect.Int, reflect.Int8, reflect.Int16, reflect.Int32, reflect.Int64:
+		fmt.Fprintf(sb, "%d;", v.Int())
+	case reflect.Uint, reflect.Uint8, reflect.Uint16, reflect.Uint32, reflect.Uint64, reflect.Uintptr:
+		fmt.Fprintf(sb, "%d;", v.Uint())
+	case reflect.Float32, reflect.Float64:
+		fmt.Fprintf(sb, "%v;", v.Float())
+	case reflect.String:
+		sb.WriteString(v.String() + ";")
+	}
+}
+
+func dumpOf(obj any) string {
+	var sb strings.Builder
+	dump(reflect.ValueOf(obj), 0, map[uintptr]bool{}, &sb)
+	return sb.String()
+}
+
+func Freeze(obj any) {
+	frozenObj, frozenDump = obj, dumpOf(obj)
+}
+
+func Unfreeze() {
+	if frozenObj != nil && dumpOf(frozenObj) != frozenDump {
+		fail("instance-write")
+	}
+	frozenObj = nil
+}
 func TrackMemory(on bool) {}
 func Settle()             {}
